@@ -67,9 +67,13 @@ func c09Init() {
 		"certA-PEM-bundle": append(append(pem.EncodeToMemory(&pem.Block{Type: "CERTIFICATE", Bytes: ca.Raw}), pem.EncodeToMemory(&pem.Block{Type: "CERTIFICATE", Bytes: cb.Raw})...), []byte("# end of bundle\n")...),
 		"certB-DER":        cb.Raw, "certC-DER": cc.Raw,
 	}
+	// data exactly as long as the PEM text of certificate C: a list of that signature size exists when
+	// the PEM form is appended, and the certificate must still be stored (as DER, in a list of its size)
+	c09Data["certC-PEM"] = pem.EncodeToMemory(&pem.Block{Type: "CERTIFICATE", Bytes: cc.Raw})
+	c09Data["blob-as-long-as-certC-PEM"] = fill(len(c09Data["certC-PEM"]), 0x47)
 	c09Types = []c09Type{
 		{"SHA256", signature.CERT_SHA256_GUID, []string{"h1", "h2", "h31", "certA-DER"}},
-		{"X509", signature.CERT_X509_GUID, []string{"certA-DER", "certA-PEM", "certA-PEM-with-preamble", "certA-PEM-other-label", "certA-PEM-bundle", "certB-DER", "certC-DER", "h1"}},
+		{"X509", signature.CERT_X509_GUID, []string{"certA-DER", "certA-PEM", "certA-PEM-with-preamble", "certA-PEM-other-label", "certA-PEM-bundle", "certB-DER", "certC-DER", "h1", "certC-PEM", "blob-as-long-as-certC-PEM"}},
 		{"SHA1", signature.CERT_SHA1_GUID, []string{"s20", "h1"}},
 		{"UNKNOWN", util.EFIGUID{Data1: 0xdeadbeef, Data2: 1, Data3: 2, Data4: [8]byte{3, 4, 5, 6, 7, 8, 9, 10}}, []string{"h1"}},
 	}
@@ -561,7 +565,7 @@ func init() {
 					u = append(u, fmt.Sprintf("bfs#%d#%d", ii, oi))
 				}
 			}
-			return append(u, "weakeq#SHA256#h1", "weakeq#X509#certA-DER", "weakeq#X509#certB-DER")
+			return append(u, "shared-list", "weakeq#SHA256#h1", "weakeq#X509#certA-DER", "weakeq#X509#certB-DER")
 		},
 		Run: c09Run,
 		Bound: func(tier string) map[string]any {
@@ -574,6 +578,10 @@ func init() {
 func c09Run(c *hx.Ctx, tier, unit string) {
 	c.NoOnly = true
 	parts := strings.Split(unit, "#")
+	if parts[0] == "shared-list" {
+		c09SharedList(c)
+		return
+	}
 	if parts[0] == "weakeq" {
 		c09WeakEq(c, parts[1], parts[2])
 		return
@@ -725,6 +733,99 @@ func c09WeakEq(c *hx.Ctx, typ, xname string) {
 				}
 				c.Outcome("state-ok")
 				c.Nontrivial([]byte(c09Key(db)))
+				if len(path) < 2 {
+					rec(append(append([]int{}, path...), oi))
+				}
+			}
+		}
+		rec(nil)
+	}
+}
+
+// c09SharedList: one list (built by list-level AppendBytes) handed to two databases, through
+// AppendList twice or through AppendDatabase. Whatever sharing the library implements, after every
+// operation on either database BOTH must still be well-formed: queries agree with what each holds, no
+// list with two identical entries, size equations, a well-formed encoding that carries its lists. All
+// sequences of up to three operations over {Remove, Append} on either database are run.
+func c09SharedList(c *hx.Ctx) {
+	c09Init()
+	c09Data["h3"], c09Data["h4"] = fill(32, 0x33), fill(32, 0x44)
+	t := &c09Types[0]
+	c09InitialDup = map[string]int{}
+	type cfg struct {
+		name string
+		lst  []string
+		via  string
+	}
+	var cfgs []cfg
+	for _, lst := range [][]string{{"O1:h1", "O1:h2", "O1:h3"}, {"O1:h1", "O1:h2"}, {"O1:h1"}} {
+		for _, via := range []string{"AppendList", "AppendDatabase"} {
+			cfgs = append(cfgs, cfg{fmt.Sprintf("list %v given to databases A and B (B through %s)", lst, via), lst, via})
+		}
+	}
+	type op struct {
+		db   int
+		kind string
+		data string
+	}
+	var ops []op
+	for db := 0; db < 2; db++ {
+		for _, d := range []string{"h1", "h2", "h3"} {
+			ops = append(ops, op{db, "remove", d})
+		}
+		for _, d := range []string{"h4", "h1"} {
+			ops = append(ops, op{db, "append", d})
+		}
+	}
+	opName := func(o op) string {
+		return fmt.Sprintf("%s.%s(SHA256,O1,%s)", []string{"A", "B"}[o.db], map[string]string{"remove": "Remove", "append": "Append"}[o.kind], o.data)
+	}
+	for _, cf := range cfgs {
+		var rec func(path []int)
+		rec = func(path []int) {
+			for oi := range ops {
+				c.Next()
+				l, _ := c09BuildList(t, cf.lst)
+				dbs := [2]*signature.SignatureDatabase{signature.NewSignatureDatabase(), signature.NewSignatureDatabase()}
+				names := []string{"init: " + cf.name}
+				var bad string
+				var detail map[string]any
+				pn := hx.Try(func() {
+					dbs[0].AppendList(l)
+					if cf.via == "AppendList" {
+						dbs[1].AppendList(l)
+					} else {
+						dbs[1].AppendDatabase(dbs[0])
+					}
+					for _, pi := range append(append([]int{}, path...), oi) {
+						o := ops[pi]
+						names = append(names, opName(o))
+						if o.kind == "remove" {
+							dbs[o.db].Remove(t.g, c09Own[0].g, c09Data[o.data])
+						} else {
+							dbs[o.db].Append(t.g, c09Own[0].g, c09Data[o.data])
+						}
+					}
+					for i, db := range dbs {
+						if v, d := c09Invariants(db); v != "" {
+							bad, detail = "database "+[]string{"A", "B"}[i]+": "+v, d
+							return
+						}
+					}
+				})
+				c.Count("transitions", 1)
+				if pn != nil {
+					c.Outcome("step-violation")
+					c.Violation("C09 operations on databases sharing a list end in "+pn.String(), map[string]any{"history": names})
+					continue
+				}
+				if bad != "" {
+					c.Outcome("state-violation")
+					c.Violation("C09 state invariant after operations on databases that were given the same list: "+bad, map[string]any{"history": names, "detail": detail})
+					continue
+				}
+				c.Outcome("state-ok")
+				c.Nontrivial([]byte(c09Key(dbs[0])), []byte(c09Key(dbs[1])))
 				if len(path) < 2 {
 					rec(append(append([]int{}, path...), oi))
 				}
